@@ -255,6 +255,10 @@ def dispatch_exhaustive(ct: Container, rep, rule="dispatch-exhaustive"):
 
 
 def run(prog, rep):
+    # 'never alters any other block or its metadata' - of any file: the table a mutator works on is this object's own (a class-level
+    # list that every open Tdf parses into makes a writer rewrite its file from another file's entries)
+    from .c17 import container_own_state
+    rep.attempt(container_own_state, prog, rep)
     ct = Container(prog)
     cd = Codecs(prog)
     cd.flag_errors(rep)
